@@ -94,15 +94,22 @@ def applyEv (m : Mon) : Ev → Mon
   | .raised t => m.setStatus t .raised
 
 /-- **single flight**: a request for `loc` is acceptable only if every earlier download of `loc`
-    requested since `loc` was last uncached was abandoned: its lookup ended cancelled.
+    requested since `loc` was last uncached was abandoned: the lookup that issued it ended cancelled.
     (Covers "one download for concurrent lookups" and "a failed download is remembered, not
-    retried on every lookup".) -/
+    retried on every lookup".)  The text does not say WHO issues the download: if the request comes from
+    a lookup task it must be an unfinished lookup of that location; a request issued from elsewhere (e.g.
+    a download task of its own — `t` is then no lookup) is judged by location only, and such a download
+    is never "abandoned" by a lookup's cancellation. -/
 def okRequest (m : Mon) (t : Nat) (loc : Loc) : Bool :=
   (match m.tasks[t]? with
    | some k => k.loc == loc && k.status == .pending
-   | none => false)
-  && m.dls.all fun d =>
-      !(d.loc == loc && d.epoch == m.epochOf loc) || m.statusOf d.owner == some .cancelled
+   | none => true)
+  && ((m.dls.all fun d =>
+        !(d.loc == loc && d.epoch == m.epochOf loc) || m.statusOf d.owner == some .cancelled)
+      -- tolerated: a lookup created BEFORE the last uncache of `loc` is still unfinished — the download it was
+      -- waiting for may have been invalidated by that uncache (when exactly a download "belongs" to the old
+      -- epoch is not observable from outside), so one more download on its behalf is not a second flight
+      || m.tasks.any fun k => k.loc == loc && k.status == .pending && decide (k.startEpoch < m.epochOf loc))
 
 /-- **shared outcome**: a lookup may only return the released outcome of a download of its
     location that was requested after the lookup was created, or in the same uncache-epoch in which
